@@ -61,7 +61,7 @@ pub fn profile(id: &str) -> Profile {
             p.wakers = (1, 2);
         }
         "C09" => {
-            p.opw = OpW { trysync: 16, sync: 8, desync: 10, futdesync: 5, await_: 4, futsync: 2, after: 2, rewake: 4, opengate: 4, ..OpW::default() };
+            p.opw = OpW { trysync: 16, sync: 6, desync: 8, futdesync: 7, pollonce: 6, dropfut: 5, await_: 4, futsync: 2, after: 2, rewake: 4, opengate: 4, ..OpW::default() };
             p.stepw = StepW { yield_: 10, ..StepW::default() };
             p.gates = (1, 3);
             p.wakers = (1, 2);
@@ -140,7 +140,43 @@ pub fn gated_case(p: &Profile) -> BoxedStrategy<Case> {
     free.opw = OpW { desync: 12, sync: 6, trysync: 2, futdesync: 4, await_: 3, futsync: 2, after: 0, waitfor: 2, opengate: 0, release: 0, ..OpW::default() };
     free.stepw = StepW { awaitgate: 0, opengate: 0, blockongate: 0, nested_desync: 0, nested_sync: 0, nested_futdesync: 0, awaitfutsync: 0, awaitfutdesync: 0, ..StepW::default() };
     let free_ops = vec(vec(op_strategy(&free), 1..=5), 1..=3);
-    (1u8..=3, 2u8..=4, any::<u8>(), free_ops, vec((0u8..3, any::<u8>()), 1..=3), sched_strategy(p.sched_bytes), prop::bool::weighted(0.3), prop::bool::ANY).prop_map(|(pool, objects, kraw, mut free_callers, blockers, sched, unlock_points, extra_sync)| {
+    (1u8..=3, 2u8..=4, any::<u8>(), free_ops, vec((0u8..3, any::<u8>()), 1..=3), sched_strategy(p.sched_bytes), prop::bool::weighted(0.3), prop::bool::ANY, (prop::bool::weighted(0.25), 0u8..=1, any::<u8>())).prop_map(|(pool, objects, kraw, mut free_callers, blockers, sched, unlock_points, extra_sync, (raise, p0, nraw))| {
+        if raise && objects >= 3 {
+            // variant: the work is scheduled while the pool is too small to serve it (0 or 1 threads, the blocked objects may
+            // take them all); then the maximum is raised through the public API and nothing else is called: every free
+            // object must be served by the threads that may now be spawned
+            let k = (1 + (kraw as usize * 2 >> 8)).min(objects as usize - 1).min(2);
+            let n = (k as u8 + 1) + ((nraw as usize * (3 - k)) >> 8) as u8;
+            let mut callers: Vec<Vec<Op>> = vec![];
+            for b in 0..k {
+                let (kind, _) = blockers[b % blockers.len()];
+                let g = b as u8;
+                callers.push(vec![match kind {
+                    1 => Op::FutDesync { o: b as u8, body: vec![Step::AwaitGate { g }, Step::Touch], slot: 0, id: 0 },
+                    _ => Op::Desync { o: b as u8, body: vec![Step::Touch, Step::BlockOnGate { g }], id: 0 },
+                }]);
+            }
+            let nfree = objects as usize - k;
+            for c in free_callers.iter_mut() {
+                for op in c.iter_mut() {
+                    // asynchronous work only: with this few threads a synchronous call would run the queue on the caller
+                    let (o, body) = match op {
+                        Op::Desync { o, body, .. } => (*o, body.clone()),
+                        Op::Sync { o, body, .. } | Op::TrySync { o, body, .. } => (*o, body.clone()),
+                        Op::FutDesync { o, .. } | Op::FutSync { o, .. } => (*o, vec![Step::Touch, Step::Yield]),
+                        _ => (0, vec![Step::Touch]),
+                    };
+                    *op = Op::Desync { o, body, id: 0 };
+                    remap_obj(op, k, nfree, objects as usize);
+                }
+            }
+            callers.extend(free_callers);
+            let must: Vec<u8> = (k as u8..objects).collect();
+            let cfg = Cfg { pool: p0, objects, gates: k as u8, streams: 0, level: Level::Desync, unlock_points, spurious: vec![], pre_open: vec![], root_holds: true, double_wake: false, gate_keep_all: false, stream_always_register: false, keep_going_after_early_destroy: false, despawn_without_quiescence: false, unwinding_drops: false, consumer_probe_polls: false, chained_streams: false };
+            let phase0 = Phase { callers, ..Default::default() };
+            let phase1 = Phase { root: vec![RootAct::SetPoolPublic { n, atomic: nraw % 4 != 0 }], must_finish_objs: must, ..Default::default() };
+            return Case { cfg, phases: vec![phase0, phase1], sched };
+        }
         // k blocked objects, k < pool and k < objects
         let kmax = (pool as usize - 0).min(objects as usize - 1);
         let k = if kmax <= 1 { kmax.min(1).min(pool as usize - 1 + 0).max(0) } else { 1 + (kraw as usize * (kmax - 1) >> 8) };
@@ -173,7 +209,7 @@ pub fn gated_case(p: &Profile) -> BoxedStrategy<Case> {
         let _ = first_free;
         callers.extend(free_callers);
         let must: Vec<u8> = (k as u8..objects).collect();
-        let cfg = Cfg { pool, objects, gates, streams: 0, level: Level::Desync, unlock_points, spurious: vec![], pre_open: vec![], root_holds: true, double_wake: false, gate_keep_all: false, stream_always_register: false, keep_going_after_early_destroy: false, despawn_without_quiescence: false, unwinding_drops: false };
+        let cfg = Cfg { pool, objects, gates, streams: 0, level: Level::Desync, unlock_points, spurious: vec![], pre_open: vec![], root_holds: true, double_wake: false, gate_keep_all: false, stream_always_register: false, keep_going_after_early_destroy: false, despawn_without_quiescence: false, unwinding_drops: false, consumer_probe_polls: false, chained_streams: false };
         let phase0 = Phase { callers, must_finish_objs: if k > 0 { must } else { vec![] }, ..Default::default() };
         Case { cfg, phases: vec![phase0], sched }
     })
@@ -203,7 +239,7 @@ pub fn panic_case(p: &Profile) -> BoxedStrategy<Case> {
     healthy.stepw = StepW { awaitgate: 0, opengate: 0, blockongate: 0, nested_sync: 0, nested_desync: 1, nested_futdesync: 0, awaitfutsync: 0, awaitfutdesync: 0, ..StepW::default() };
     let bystanders = vec(vec(op_strategy(&healthy), 0..=3), 0..=2);
     let phase2 = vec(vec(op_strategy(&healthy), 1..=4), 1..=3);
-    (1u8..=3, 2u8..=4, 0u8..10, bystanders, phase2, sched_strategy(p.sched_bytes), prop::bool::weighted(0.3), vec(0u8..5, 1..=3)).prop_map(|(pool, objects, ctx, mut by, mut ph2, sched, unlock_points, attempts)| {
+    (1u8..=3, 2u8..=4, 0u8..10, bystanders, phase2, sched_strategy(p.sched_bytes), prop::bool::weighted(0.3), vec(0u8..5, 1..=3), (prop::bool::weighted(0.3), vec((any::<u8>(), 0u8..3), 0..=2))).prop_map(|(pool, objects, ctx, mut by, mut ph2, sched, unlock_points, attempts, (quiet, parked))| {
         // the panicking op and its runner context
         let mut callers: Vec<Vec<Op>> = vec![];
         let panic_body = vec![Step::Touch, Step::Yield, Step::Panic];
@@ -236,13 +272,34 @@ pub fn panic_case(p: &Profile) -> BoxedStrategy<Case> {
             // a plain job that holds a handle on a healthy object panics: the handle is released while unwinding
             _ => callers.push(vec![Op::Desync { o: 0, body: vec![Step::NestedDesync { o: 255, body: vec![Step::Touch], id: 0 }, Step::Yield, Step::Panic], id: 0 }]),
         }
-        let nhealthy = objects as usize - 1;
+        // operations parked on a closed gate hold their queue: they get the last object to themselves
+        let parked = if objects >= 3 { parked } else { vec![] };
+        let nhealthy = objects as usize - 1 - if parked.is_empty() { 0 } else { 1 };
         for c in by.iter_mut() {
             for op in c.iter_mut() {
                 remap_obj(op, 1, nhealthy, objects as usize);
             }
         }
         callers.extend(by);
+        // bystanders parked on a gate that only the final stage opens: future operations on healthy objects that are suspended
+        // when the panic happens and whose wake-up is the first thing that happens to their queue afterwards
+        for (oraw, kind) in parked.iter() {
+            let _ = oraw;
+            let o = objects - 1;
+            let mut op = match kind {
+                // (gate and slot numbers are raw bytes too: 128 scales to gate 1 of 2)
+                0 => vec![Op::FutDesync { o, body: vec![Step::AwaitGate { g: 128 }, Step::Touch], slot: 0, id: 0 }, Op::DropFut { slot: 0 }],
+                1 => vec![Op::FutDesync { o, body: vec![Step::Touch, Step::AwaitGate { g: 128 }], slot: 0, id: 0 }, Op::PollOnce { slot: 0 }],
+                _ => vec![Op::After { o, g: 128, body: vec![Step::Touch], slot: 0, id: 0 }, Op::Detach { slot: 0 }],
+            };
+            for x in op.iter_mut() {
+                // (object indices in generated programs are raw bytes scaled by the number of objects)
+                if let Op::FutDesync { o: oo, .. } | Op::After { o: oo, .. } = x {
+                    *oo = ((((*oo as usize) * 256) + objects as usize - 1) / objects as usize).min(255) as u8;
+                }
+            }
+            callers.push(op);
+        }
         for c in ph2.iter_mut() {
             for op in c.iter_mut() {
                 remap_obj(op, 1, nhealthy, objects as usize);
@@ -259,9 +316,14 @@ pub fn panic_case(p: &Profile) -> BoxedStrategy<Case> {
             };
             ph2.push(vec![Op::Attempt { o: 0, kind, id: 0 }]);
         }
-        let cfg = Cfg { pool, objects, gates: 1, streams: 0, level: Level::Desync, unlock_points, spurious: vec![], pre_open: vec![], root_holds: true, double_wake: false, gate_keep_all: false, stream_always_register: false, keep_going_after_early_destroy: false, despawn_without_quiescence: false, unwinding_drops: false };
+        let cfg = Cfg { pool, objects, gates: 2, streams: 0, level: Level::Desync, unlock_points, spurious: vec![], pre_open: vec![], root_holds: true, double_wake: false, gate_keep_all: false, stream_always_register: false, keep_going_after_early_destroy: false, despawn_without_quiescence: false, unwinding_drops: false, consumer_probe_polls: false, chained_streams: false };
         let phase0 = Phase { callers, expect_panicked: vec![0], ..Default::default() };
         let phase1 = Phase { callers: ph2, capacity_probe: true, ..Default::default() };
+        if quiet {
+            // quiet aftermath: nothing is scheduled after the panic; the final stage opens the gates and everything that was
+            // parked on the healthy objects must still finish
+            return Case { cfg, phases: vec![phase0], sched };
+        }
         Case { cfg, phases: vec![phase0, phase1], sched }
     })
     .boxed()
@@ -273,7 +335,7 @@ pub fn poolchange_case(p: &Profile) -> BoxedStrategy<Case> {
     let acts = prop_oneof![
         3 => (0u8..=3).prop_map(|n| vec![RootAct::SetPool { n }, RootAct::Despawn]),
         2 => (0u8..=3).prop_map(|n| vec![RootAct::SetPool { n }]),
-        1 => (0u8..=3).prop_map(|n| vec![RootAct::SetPoolPublic { n }, RootAct::Despawn]),
+        1 => (0u8..=3, prop::bool::ANY).prop_map(|(n, atomic)| vec![RootAct::SetPoolPublic { n, atomic }, RootAct::Despawn]),
         1 => (0u8..=2).prop_map(|n| vec![RootAct::SpawnThread, RootAct::SetPool { n }, RootAct::Despawn]),
     ];
     (cfg_strategy(&p), phase_strategy(&p), acts, phase_strategy(&p), sched_strategy(p.sched_bytes), prop::bool::ANY, prop::bool::ANY).prop_map(|(mut cfg, ph0, acts, mut ph1, sched, two, dwq)| {
@@ -444,7 +506,7 @@ pub fn rule_text(id: &str) -> &'static str {
         "C07" => "non-trivial = a future_desync/after future was awaited while its operation ran on a different thread, or was polled once and left, or was dropped/detached before resolving; distinct by (program, trace) hash",
         "C08" => "non-trivial = a future_sync future was dropped before completing (before its slot or mid-operation) with later operations queued, or was awaited from inside another object's future operation, or was awaited while other operations were queued behind it; distinct by (program, trace) hash",
         "C09" => "non-trivial = at least one try_sync was invoked while another operation on the same object was invoked-but-unfinished; distinct by (program, trace) hash",
-        "C10" => "non-trivial = k >= 1 objects were blocked on closed gates (occupying pool threads or suspended) while at least one operation on an independent object was scheduled; distinct by (program, trace) hash",
+        "C10" => "non-trivial = k >= 1 objects were blocked on closed gates (occupying pool threads or suspended) while at least one operation on an independent object was scheduled (in the 'raise' variant: scheduled while the pool was too small, then the maximum was raised through set_max_threads and nothing else was called); distinct by (program, trace) hash",
         "C11" => "non-trivial = at least one stream item arrived while an operation of the consuming object was executing, or the object was destroyed while the stream was still open; distinct by (program, trace) hash",
         "C12" => "non-trivial = the consumer had to wait for an output (polled Pending) or the buffer reached its depth before the consumer read; distinct by (program, trace) hash",
         "C13" => "non-trivial = at least one operation was invoked while a suspension was in force (suspend future resolved, resumer not yet used or dropped); distinct by (program, trace) hash",
@@ -468,7 +530,7 @@ pub fn nontrivial(id: &str, case: &Case, out: &Outcome) -> bool {
         "C07" => s.futures_dropped_unresolved >= 1 || (s.futures_awaited >= 1 && s.contended_begins >= 1),
         "C08" => s.futsync_cancelled >= 1 || (s.futures_awaited >= 1 && s.contended_begins >= 1),
         "C09" => s.trysync_contended >= 1,
-        "C10" => case.phases[0].must_finish_objs.len() >= 1 && s.accepted_async >= 1,
+        "C10" => case.phases.iter().any(|p| p.must_finish_objs.len() >= 1) && s.accepted_async >= 1,
         "C11" => s.items_while_busy >= 1 || s.last_owner_drop_with_pending >= 1,
         "C12" => s.consumer_pending >= 1 || s.backpressure_hits >= 1,
         "C13" => s.suspended_ops_held >= 1,
@@ -509,6 +571,12 @@ pub fn labels(id: &str, case: &Case, out: &Outcome) -> Vec<String> {
     flag(s.stale_wakes > 0, "stale-wakers-fired-again");
     flag(s.pipe_dropped_while_job > 0, "pipe-dropped-while-poll-job-active");
     flag(out.status == vsched::rt::Status::StepBound, "step-bound");
+    flag(s.self_wakes > 0, "self-wake-during-poll");
+    flag(s.chained_closes > 0, "stream-ended-by-drop-of-another-pipe");
+    flag(s.consumer_probe_pending > 0, "consumer-polled-with-two-wakers");
+    flag(s.unwinding_last_owner_drops > 0, "last-owner-dropped-while-unwinding");
+    flag(case.cfg.unwinding_drops, "unwinding-drops");
+    flag(case.phases.iter().any(|p| p.root.iter().any(|a| matches!(a, RootAct::SetPoolPublic { .. }))), "max-changed-through-public-api");
     let _ = id;
     l
 }
